@@ -232,3 +232,33 @@ package metric
 //@   assert@call matchFunc#1 : $arg0 == i
 //@   assert@return#1 : $ret1 && matchFunc(i)
 //@   assert@return#2 : !$ret1 && !matchFunc(i)
+
+// ======================================================================== C02 one aggregate input per reader pipeline (pipeline.go)
+// resolver.Aggregators / HistogramAggregators: EVERY inserter (one per reader pipeline) is asked exactly once, in order, for the
+// instrument - a pipeline that yields nothing (drop aggregation) or an error does not stop the others - and everything each of them
+// returns is appended to the result
+//@ ghost var resAsked int
+//@ func (r resolver[N]) Aggregators(id Instrument) (measures []aggregate.Measure[$N], err error)
+//@   prop C02
+//@   instances int64; float64
+//@   overflow assumed
+//@   unchecked frame,no-panic a fresh slice is grown
+//@   requires forall k in 0 .. len(r.inserters) : r.inserters[k] != nil
+//@   modifies ghost resAsked
+//@   ghost@entry : resAsked = 0
+//@   assert@call inserter.Instrument#* : resAsked == $k && $arg0 == r.inserters[$k] && $arg1 == id
+//@   ghost@call inserter.Instrument#* : resAsked = resAsked + 1
+//@   assert@return#* : resAsked == len(r.inserters)
+//@   loop#1 invariant resAsked == $k
+//@ func (r resolver[N]) HistogramAggregators(id Instrument, boundaries []float64) (measures []aggregate.Measure[$N], err error)
+//@   prop C02
+//@   instances int64; float64
+//@   overflow assumed
+//@   unchecked frame,no-panic a fresh slice is grown
+//@   requires forall k in 0 .. len(r.inserters) : r.inserters[k] != nil
+//@   modifies ghost resAsked
+//@   ghost@entry : resAsked = 0
+//@   assert@call inserter.Instrument#* : resAsked == $k && $arg0 == r.inserters[$k] && $arg1 == id
+//@   ghost@call inserter.Instrument#* : resAsked = resAsked + 1
+//@   assert@return#* : resAsked == len(r.inserters)
+//@   loop#1 invariant resAsked == $k
